@@ -12,6 +12,7 @@ pub mod pipeline;
 #[cfg(feature = "pgen")]
 pub mod pgen;
 pub mod pool;
+pub mod scope;
 pub mod toks;
 pub use heapmon::rng;
 pub mod trace;
